@@ -436,7 +436,7 @@ def holder_trace_repro(ctx, rows, bad):
     cand = [i for i in bad if rows[i - 1].get("act") == "yamlnone" and rows[i - 1].get("panics", 0) > 0]
     rest = [i for i in bad if i not in set(cand)]
     out = []
-    for n, i in enumerate(cand[:2] + rest[:8]):
+    for n, i in enumerate(cand[:1] + rest[:8]):
         row = rows[i - 1]
         k = i - 1
         while k > 0 and rows[k - 1].get("k") != "reset":
@@ -648,7 +648,7 @@ def run(ctx):
     confirmed = 0
     for what, rs in sorted(kinds.items()):
         ctx.cov.setdefault("disagreements_by_kind", {})[what] = len(rs)
-        for r in holder_confirm(ctx, walk, rs[:2] if what == "holder-no-schedule-panics" else rs[:4]):
+        for r in holder_confirm(ctx, walk, rs[:1] if what == "holder-no-schedule-panics" else rs[:4]):
             confirmed += 1
             ctx.disagreement(holder_key(r), r, holder_describe(r))
     known_holder = len(kinds.get("holder-no-schedule-panics", [])) if (C18, KEY2) in open_keys() else 0
